@@ -500,3 +500,63 @@ def replay_sqlite(data):
     if not bad: return None
     r, got, want = bad[0]
     return make_failure(e, params, r, mode, got, want, classify(e, r, params, mode))
+
+
+# ---------------------------------------------------------------------------------------------- re-execution with a warm translator cache
+# The SAME query text executed repeatedly on one Database with different values of the external variables that the translator folds into the
+# SQL (string slice bounds: Query._get_translator pins them in fixed_param_values and must re-translate when they change). Every warm
+# execution is compared with Python's evaluation over the rows.
+
+REEXEC_FORMS = [
+    ('(p.id, p.u[:x0]) for p in P', lambda r, x0, x1: r['u'][:x0], None),
+    ('(p.id, p.u[x0:]) for p in P', lambda r, x0, x1: r['u'][x0:], None),
+    ('(p.id, p.u[x0:x1]) for p in P', lambda r, x0, x1: r['u'][x0:x1], None),
+    ('(p.id, p.u[x0]) for p in P if len(p.u) > 2', lambda r, x0, x1: r['u'][x0], lambda r, x0, x1: len(r['u']) > 2),
+    ('(p.id, p.u) for p in P if p.u[x0:] == x2', lambda r, x0, x1: r['u'], lambda r, x0, x1: r['u'][x0:] == 'b'),
+    ('(p.id, p.u[:x0] + p.u[x1:]) for p in P', lambda r, x0, x1: r['u'][:x0] + r['u'][x1:], None),
+]
+REEXEC_VALUES = [(1, 2), (2, 3), (0, 1), (1, 3), (2, 2), (0, 3)]
+REEXEC_ROWS = [dict(r, u=u) for r, u in zip(L.standard_rows()[:5], ('abc', 'ab', 'abcb', 'bab', 'cab'))]
+
+
+def reexec_run(form, values, real=None):
+    """-> first (step, values, got, want) where a warm execution differs from Python, else None."""
+    real = real or RealDb(REEXEC_ROWS)
+    src, val, keep = REEXEC_FORMS[form]
+    orm = real.orm
+    for step, (x0, x1) in enumerate(values):
+        with orm.db_session:
+            got = sorted(orm.select(src, {'P': real.P, 'x0': x0, 'x1': x1, 'x2': 'b'}))
+        want = sorted((i, val(r, x0, x1)) for i, r in real.rows.items() if keep is None or keep(r, x0, x1))
+        if got != want: return step, (x0, x1), got, want
+    return None
+
+
+def reexec_failure(form, values, res):
+    step, (x0, x1), got, want = res
+    what = 'select(%s) executed %d times on one Database with x0, x1 = %s: execution %d (x0=%r, x1=%r) returns %r, Python evaluates %r' % (
+        REEXEC_FORMS[form][0], len(values), list(values), step + 1, x0, x1, got[:4], want[:4])
+    return Failure('unlisted:reexecution-with-changed-external-values', what, {'reexec': {'form': form, 'values': [list(v) for v in values]}})
+
+
+def reexec_search(ctx):
+    evals, failures = 0, []
+    for form in range(len(REEXEC_FORMS)):
+        values = list(REEXEC_VALUES)
+        ctx.rng.shuffle(values)
+        res = reexec_run(form, values)
+        evals += len(values) * len(REEXEC_ROWS)
+        if res is not None:
+            # shrink to the two executions involved
+            for a in range(res[0]):
+                pair = [values[a], values[res[0]]]
+                r2 = reexec_run(form, pair)
+                if r2 is not None: values, res = pair, r2; break
+            failures.append(reexec_failure(form, values, res))
+    return evals, failures
+
+
+def replay_reexec(d):
+    values = [tuple(v) for v in d['values']]
+    res = reexec_run(d['form'], values)
+    return None if res is None else reexec_failure(d['form'], values, res)
